@@ -544,6 +544,97 @@ func c14Rows(rng *RNG, q aquery) []arow {
 	return rows
 }
 
+// ---------------------------------------------------------------- eviction family
+// Partitions ABOVE the cap with a WHEN clause and RETURNING partitions: cap from {1,2,3,5}, cap+1 .. cap+3
+// distinct partition values visited mostly round-robin (so that a partition is evicted before it comes back),
+// sometimes repeated (a gated-off row right after / before a counted one) or drawn at random, and a WHEN column
+// that fails on about 45% of the rows.  A partition that returns after its eviction with a WHEN-false row must
+// yield NULL (changed_cols: no columns) until its first WHEN-true row: the driver judges these histories with the
+// specification of all histories (coq/Spec/AnalyticEpochSpec.v; verdict chk evicted_partition_replays_stale_result).
+func c14EvictCap(rng *RNG) int { return []int{1, 2, 2, 3, 3, 5}[rng.Intn(6)] }
+
+func c14SetCol(r arow, col string, v aval) arow {
+	var out arow
+	for _, c := range r {
+		if c.col != col {
+			out = append(out, c)
+		}
+	}
+	if v.k != 'A' {
+		out = append(out, struct {
+			col string
+			v   aval
+		}{col, v})
+	}
+	return out
+}
+
+func c14EvictRows(rng *RNG, rows []arow, capv int) []arow {
+	var cand []aval
+	for _, v := range c14PartPool {
+		if v.k != 'A' { // a missing column is the NULL partition: keep the values distinct as partitions
+			cand = append(cand, v)
+		}
+	}
+	for i := len(cand) - 1; i > 0; i-- {
+		j := rng.Intn(i + 1)
+		cand[i], cand[j] = cand[j], cand[i]
+	}
+	nparts := capv + 1 + rng.Intn(3)
+	if nparts > len(cand) {
+		nparts = len(cand)
+	}
+	pool := cand[:nparts]
+	idx := rng.Intn(nparts)
+	for len(rows) < 3*nparts { // long enough for every partition to come back
+		rows = append(rows, rows[rng.Intn(len(rows))])
+	}
+	out := make([]arow, len(rows))
+	for i, r := range rows {
+		switch x := rng.Intn(100); {
+		case x < 50:
+			idx = (idx + 1) % nparts
+		case x < 75:
+		default:
+			idx = rng.Intn(nparts)
+		}
+		var g aval
+		switch x := rng.Intn(100); {
+		case x < 55:
+			g = aval{k: 'i', z: rng.Range(1, 2)}
+		case x < 95:
+			g = aval{k: 'i', z: rng.Range(-1, 0)}
+		case x < 98:
+			g = aval{k: 'N'}
+		default:
+			g = aval{k: 'A'}
+		}
+		r = c14SetCol(r, "p", pool[idx])
+		if pool[idx].k == 'N' && rng.Intn(3) == 0 {
+			r = c14SetCol(r, "p", aval{k: 'A'}) // the same partition, written as a missing column
+		}
+		out[i] = c14SetCol(r, "g", g)
+	}
+	return out
+}
+
+// one query + stream of the eviction family for the first family of lines (Q)
+func c14EvictJob(rng *RNG) (aquery, []arow) {
+	q := c14Query(rng)
+	for q.f.kind == "named" {
+		q = c14Query(rng)
+	}
+	q.f.part, q.f.when = []string{"p"}, "g"
+	if q.wkind == "a" {
+		q.wf.part = q.f.part
+		if rng.Bool() {
+			q.wf.when = "g"
+		}
+	}
+	q.cap = c14EvictCap(rng)
+	return q, c14EvictRows(rng, c14Rows(rng, q), q.cap)
+}
+
 func c14Keys(rng *RNG, o *Out, n int) {
 	strs := []string{"", "a", "b", "a|b", "|", ":", "1", "12", "3:int", "int|1", "nil|", "a|6:string|b", "true", "x\x00y", "é"}
 	for i := 0; i < n; i++ {
@@ -649,7 +740,13 @@ func runC14(tier string, seed uint64, o *Out) error {
 		rows []arow
 	}
 	jobs := make([]job, nq)
+	evict := make([]bool, nq)
 	for i := range jobs {
+		if rng.Intn(100) < 15 {
+			q, rows := c14EvictJob(rng)
+			jobs[i], evict[i] = job{q, rows}, true
+			continue
+		}
 		q := c14Query(rng)
 		jobs[i] = job{q, c14Rows(rng, q)}
 	}
@@ -708,6 +805,9 @@ func runC14(tier string, seed uint64, o *Out) error {
 		o.Count(fmt.Sprintf("partcols_%d", len(q.f.part)))
 		if q.f.when != "" {
 			o.Count("when")
+		}
+		if evict[i] {
+			o.Count("evict_family")
 		}
 		if len(q.f.part) > 0 {
 			seen := map[string]bool{}
